@@ -130,7 +130,7 @@ func (p *Prog) VerifyFunc(c *Contract) (res *FuncResult) {
 				rv = &Val{Tup: r.vals, Typ: fn.Signature.Results()}
 			}
 			renv.bindResults(fn, nil, rv)
-			goals = append(goals, Goal{r.reach, renv.evalBool(en.E)})
+			goals = append(goals, Goal{r.reach, renv.evalBool(en.E), vc.retWhere(&r)})
 		}
 		mark = vc.S.Mark()
 		if len(goals) == 0 {
@@ -288,7 +288,7 @@ func (vc *VC) frameObligations(fr *Frame, c *Contract) {
 		}
 		sort.Strings(by)
 		vc.addObl(&Obligation{Kind: "frame", Anchor: "all", Props: c.Props, Desc: "function havocs the whole heap (unknown callee: " + strings.Join(by, ", ") + ") but declares a modifies clause",
-			Goals: []Goal{{"true", "false"}}, Mark: vc.S.Mark()})
+			Goals: []Goal{{Reach: "true", Cond: "false"}}, Mark: vc.S.Mark()})
 		return
 	}
 	env := &SpecEnv{fr: fr, heap: vc.root, old: vc.root, block: fr.fn.Blocks[0], idx: 0, bound: map[string]*Val{}}
@@ -309,7 +309,7 @@ func (vc *VC) frameObligations(fr *Frame, c *Contract) {
 			}
 			var goals []Goal
 			for _, r := range fr.rets {
-				goals = append(goals, Goal{r.reach, eq(r.heap.Get(name), vc.root.Get(name))})
+				goals = append(goals, Goal{Reach: r.reach, Cond: eq(r.heap.Get(name), vc.root.Get(name))})
 			}
 			vc.addObl(&Obligation{Kind: "frame", Anchor: shortType(name), Props: c.Props, Desc: "modifies: " + name + " unchanged", Goals: goals, Mark: vc.S.Mark()})
 			continue
@@ -327,7 +327,7 @@ func (vc *VC) frameObligations(fr *Frame, c *Contract) {
 		}
 		var goals []Goal
 		for _, r := range fr.rets {
-			goals = append(goals, Goal{r.reach, fmt.Sprintf("(forall ((r Int)) (=> (and (select %s r) %s) (= (select %s r) (select %s r))))", al, and(ne...), r.heap.Get(name), vc.root.Get(name))})
+			goals = append(goals, Goal{Reach: r.reach, Cond: fmt.Sprintf("(forall ((r Int)) (=> (and (select %s r) %s) (= (select %s r) (select %s r))))", al, and(ne...), r.heap.Get(name), vc.root.Get(name))})
 		}
 		vc.addObl(&Obligation{Kind: "frame", Anchor: shortType(name), Props: c.Props, Desc: "modifies: only declared locations of " + shortType(name) + " change", Goals: goals, Mark: vc.S.Mark()})
 	}
@@ -459,4 +459,13 @@ func (o *Obligation) SMTGoal(s *Script, getModel bool, only int) string {
 		sb.WriteString("(get-value (" + strings.Join(ts, " ") + "))\n")
 	}
 	return sb.String()
+}
+
+// retWhere names the source line of a return (diagnostics).
+func (vc *VC) retWhere(r *retInfo) string {
+	if r.block == nil || len(r.block.Instrs) == 0 {
+		return ""
+	}
+	pos := vc.P.SSA.Fset.Position(r.block.Instrs[len(r.block.Instrs)-1].Pos())
+	return fmt.Sprintf("return at %s:%d", shortFile(pos.Filename), pos.Line)
 }
